@@ -24,3 +24,112 @@ CHECK = GraphCheck(
     deciding=["M-stage.join_returns", "M-stage.restructure_loop", "M-stage.restructure_branch"],
     profile=("stage", "table", "step", "budget"),
 )
+
+
+# ---------------------------------------------------------------- long graphs
+# "any size": a handful of closed CFGs with 1000-1500 blocks on one level (a
+# branch followed by a long chain, a long arm, a loop in front of a long tail,
+# a ladder of if/else diamonds), restructured under the interpreter's DEFAULT
+# recursion limit (the workers otherwise raise it for the oracles' sake, which
+# would hide a library routine that recurses once per block of a path).
+import random as _random
+import sys as _sys
+
+from .. import core as _core, attach as _attach, drivers as _drivers
+from ..workloads import graphs as _graphs
+from .base import ShardAcc as _ShardAcc
+
+_plan0 = CHECK.plan
+_run0 = CHECK.run_shard
+SHAPES = ["long_tail", "long_arm", "loop_then_tail", "two_long_arms", "diamond_ladder", "long_loop_body"]
+
+
+def long_graph(shape, n):
+    g = {}
+
+    def chain(prefix, k, then):
+        for i in range(k):
+            g[f"{prefix}{i}"] = (f"{prefix}{i + 1}",) if i + 1 < k else then
+        return f"{prefix}0"
+
+    if shape == "long_tail":
+        g["e"] = ("a", "b")
+        g["a"] = ("j",)
+        g["b"] = ("j",)
+        g["j"] = (chain("t", n, ()),)
+    elif shape == "long_arm":
+        g["e"] = (chain("a", n, ("j",)), "b")
+        g["b"] = ("j",)
+        g["j"] = ()
+    elif shape == "two_long_arms":
+        g["e"] = (chain("a", n // 2, ("j",)), chain("b", n // 2, ("j",)))
+        g["j"] = ()
+    elif shape == "loop_then_tail":
+        g["e"] = ("h",)
+        g["h"] = ("w", "x")
+        g["w"] = ("h",)
+        g["x"] = ("p", "q")
+        g["p"] = ("j",)
+        g["q"] = ("j",)
+        g["j"] = (chain("t", n, ()),)
+    elif shape == "long_loop_body":
+        g["e"] = ("h",)
+        g["h"] = (chain("w", n, ("h",)), "x")
+        g["x"] = ()
+    else:  # diamond_ladder: k diamonds in a row (4 blocks each)
+        k = min(n // 4, 40)  # restructuring cost grows steeply with consecutive diamonds
+        for i in range(k):
+            nxt = f"d{i + 1}" if i + 1 < k else "end"
+            g[f"d{i}"] = (f"l{i}", f"r{i}")
+            g[f"l{i}"] = (nxt,)
+            g[f"r{i}"] = (nxt,)
+        g["end"] = (chain("t", n - 3 * k, ()),)
+    return g
+
+
+def _plan(tier, seed):
+    shards = _plan0(tier, seed)
+    sizes = [1100] if tier == "quick" else [1100, 1500, 2500]
+    for shape in SHAPES:
+        for n in sizes:
+            shards.append({"kind": "long", "shape": shape, "n": n + seed % 7, "tier": tier})
+    return shards
+
+
+def _run(spec):
+    if spec["kind"] != "long" and not (spec["kind"] == "single" and spec["case"].get("kind") == "long"):
+        return _run0(spec)
+    if spec["kind"] == "single":
+        spec = dict(spec, shape=spec["case"]["shape"], n=spec["case"]["n"])
+    _attach.install(("stage", "table", "budget"))
+    from ..monitors import budget
+
+    acc = _ShardAcc("C02")
+    g = long_graph(spec["shape"], spec["n"])
+    _graphs.assert_closed(g)
+    ctx = _core.set_ctx(_core.Ctx(None))
+    _attach.ACTIVE.clear()
+    _attach.ACTIVE.update({"C02"})
+    scfg = _drivers.make_scfg(g, "basic")
+    n = len(g)
+    old = _sys.getrecursionlimit()
+    _sys.setrecursionlimit(1000)
+    budget.start(200 * n * n + 100_000)
+    try:
+        done = _drivers.run_stages(scfg, "JLB", ctx)
+    except budget.BudgetExceeded:
+        done = []
+        ctx.violation("C02", "call_budget_exceeded", {"n": n, "shape": spec["shape"]})
+    finally:
+        used = budget.stop()
+        _sys.setrecursionlimit(old)
+    acc.maximum("python_calls_long_graph", used)
+    acc.counters["class.long_%s" % spec["shape"]] += 1
+    acc.counters["long_graphs.stages_completed_%d" % len(done)] += 1
+    case = {"kind": "long", "shape": spec["shape"], "n": spec["n"]}
+    acc.add_ctx(ctx, case, nontrivial_hash=_core.sha([spec["shape"], spec["n"]]))
+    return acc.result()
+
+
+CHECK.plan = _plan
+CHECK.run_shard = _run
